@@ -332,6 +332,13 @@ class Effects:
             elif isinstance(par, ast.BoolOp) and isinstance(par.op, ast.And):
                 idx = next((i for i, v in enumerate(par.values) if v is cur), 0)
                 conds.extend(par.values[:idx])
+            elif isinstance(par, ast.match_case) and any(cur is x for x in par.body):
+                # `match (isnan(a), isnan(b)): case (True, True): <draw>`: the elements matched against True hold on this arm
+                m_ = parents.get(id(par))
+                if isinstance(m_, ast.Match) and isinstance(m_.subject, ast.Tuple) and isinstance(par.pattern, ast.MatchSequence) and len(par.pattern.patterns) == len(m_.subject.elts) and par.guard is None:
+                    for el, pt in zip(m_.subject.elts, par.pattern.patterns):
+                        if isinstance(pt, ast.MatchSingleton) and pt.value is True:
+                            conds.append(el)
             cur = par
         atoms = set()
 
